@@ -215,7 +215,8 @@ def shards(tier):
         for si, (placement, elems, bufsize) in enumerate(_shapes(tier)):
             sh = {"placement": placement, "elems": elems}
             if reusable(sh):
-                out.append({"mode": "reused", "n": n, "shape": si, "flow": "ints", "depth": 3,
+                out.append({"mode": "reused", "n": n, "shape": si, "flow": _flowkinds(placement, elems)[0],
+                            "depth": 3,
                             "bound": "one pipeline object, n=%d depth<=3" % n})
     return out
 
@@ -494,7 +495,7 @@ class Pipeline(object):
 
 def reusable(shape):
     return (shape["placement"] in ("source", "sequence", "nested", "split_seq", "split_nested", "split_tuple")
-            and all(sp[0] in ("f", "cache") for sp in shape["elems"]))
+            and all(sp[0] in ("f", "cache", "mut") for sp in shape["elems"]))
 
 
 def _reuse_runs(shape):
@@ -600,7 +601,8 @@ def _final_len(shape):
 
 def _ops(shape, tier):
     nc = len(M.cache_positions(shape["elems"]))
-    ops = [("none", "all"), ("recompute", "all"), ("drop", "all")]
+    # "dropre": drop_cache() called on caches that were made with recompute=True
+    ops = [("none", "all"), ("recompute", "all"), ("drop", "all"), ("dropre", "all")]
     if nc > 1:
         ops += [("recompute", nc - 1), ("drop", 0)]
         if tier == "thorough":
@@ -628,6 +630,8 @@ def _runs(shape, model, tier, last):
     long_ok = (shape["placement"].startswith("split") and shape["bufsize"] == "n" and n >= 1)
     for op, which in _ops(shape, tier):
         for kd in kinds:
+            if op == "dropre" and not (kd["kind"] == "complete" or (kd["kind"] == "stop" and kd.get("close"))):
+                continue        # the combination is explored with complete and interrupted-and-closed runs
             run = dict(kd)
             run["op"] = op
             run["which"] = which
